@@ -756,3 +756,48 @@ package sstables
 //@        reader.miscClosers[len(reader.miscClosers) - 1] == callres(recordio.NewFileReader, 0, 0)
 //@   exit [C19:failed-open-releases-the-descriptor] called(recordio.NewFileReader, 0) && callres(recordio.NewFileReader, 0, 1) == nil &&
 //@        called(ReaderI.Open, 0) && callres(ReaderI.Open, 0, 0) != nil ==> called(ReaderI.Close, 0)
+
+// ---------------------------------------------------------------------------------------------------
+// C03 / C18: the remaining entry points of a table reader. Contains answers "absent" from the bloom filter alone only when the
+// filter says so (the writer adds every accepted key: WriteNext [success-bloom]; the filter has no false negatives: trusted);
+// otherwise the index decides. Range scans walk the index iterator they asked for, over this reader.
+
+//@ iface SortedKeyIndex.Contains
+//@   modifies nothing
+//@ iface SortedKeyIndex.IteratorStartingAt
+//@   ensures r1 == nil ==> r0 != nil
+//@   fresh r0
+//@   modifies nothing
+//@ iface SortedKeyIndex.IteratorBetween
+//@   ensures r1 == nil ==> r0 != nil
+//@   fresh r0
+//@   modifies nothing
+
+//@ func (*SSTableReader).Contains
+//@   props C03 C18
+//@   replay table_model
+//@   requires reader.index != nil
+//@   exit [C03:filter-negative-answers-absent] reader.bloomFilter != nil && called(Filter.Contains, 0) && !callres(Filter.Contains, 0, 0) ==> !r0 && r1 == nil
+//@   exit [C03:otherwise-the-index-decides] called(SortedKeyIndex.Contains, 0) ==> r0 == callres(SortedKeyIndex.Contains, 0, 0) && r1 == callres(SortedKeyIndex.Contains, 0, 1)
+//@   exit [C03:filter-is-asked-about-this-key] called(Filter.Contains, 0) ==> called(Hash64.Write, 0) && hsum(callres(fnv.New64, 0, 0)) == hmix(0, content(key))
+//@   modifies hsum(*)
+
+//@ func (*SSTableReader).ScanStartingAt
+//@   props C03 C18
+//@   replay table_model
+//@   requires reader.index != nil
+//@   exit [C03:walks-the-index-from-the-key] r1 == nil ==> r0 != nil && asType(*SSTableIterator, r0).reader == reader &&
+//@        asType(*SSTableIterator, r0).keyIterator == callres(SortedKeyIndex.IteratorStartingAt, 0, 0) && callres(SortedKeyIndex.IteratorStartingAt, 0, 1) == nil
+//@   exit [C03:index-error-reported] callres(SortedKeyIndex.IteratorStartingAt, 0, 1) != nil ==> r1 != nil
+//@   call 0 of SortedKeyIndex.IteratorStartingAt: assert [C03:bound-passed-unchanged] arg0 === key
+//@   modifies nothing
+
+//@ func (*SSTableReader).ScanRange
+//@   props C03 C18
+//@   replay table_model
+//@   requires reader.index != nil
+//@   exit [C03:walks-the-index-between-the-bounds] r1 == nil ==> r0 != nil && asType(*SSTableIterator, r0).reader == reader &&
+//@        asType(*SSTableIterator, r0).keyIterator == callres(SortedKeyIndex.IteratorBetween, 0, 0) && callres(SortedKeyIndex.IteratorBetween, 0, 1) == nil
+//@   exit [C03:index-error-reported] callres(SortedKeyIndex.IteratorBetween, 0, 1) != nil ==> r1 != nil
+//@   call 0 of SortedKeyIndex.IteratorBetween: assert [C03:bounds-passed-unchanged] arg0 === keyLower && arg1 === keyHigher
+//@   modifies nothing
